@@ -888,3 +888,51 @@ pub fn o_dirty(prop: &str, ops: &[Op], ex: &Exec) -> V {
     }
     v
 }
+
+/// C18(b): every timestamp of every file entry (after flushing handles) follows the stamping rules.
+pub fn o_stamps(prop: &str, ex: &Exec) -> V {
+    use crate::model::Stamp;
+    use crate::sess::instant_words;
+    let mut v = V::new();
+    if ex.panic.is_some() || !ex.completed {
+        return v;
+    }
+    let Some(Ok(d)) = &ex.suffix.flushed else { return v };
+    let now = ex.ticks_post;
+    for (nid, node) in &ex.model.nodes {
+        if *nid == ROOT {
+            continue;
+        }
+        let p = ex.model.path_of(*nid);
+        let Some(e) = d.find_entry(&p) else { continue };
+        let is_dir = matches!(node.kind, MKind::Dir(_));
+        let check = |what: &str, exp: Stamp, matches: &dyn Fn(u32) -> bool, v: &mut V| {
+            let (lo, hi, class) = match exp {
+                Stamp::Unknown => return,
+                Stamp::Range(lo, hi) => (lo + 1, hi, "clock"),
+                Stamp::Exact(t) => (t, t, "explicit"),
+            };
+            if !(lo..=hi).any(|t| matches(t)) {
+                // does it come from the clock at all?
+                let from_clock = (0..=now.max(hi)).find(|t| matches(*t));
+                push(
+                    v,
+                    format!("{prop}/stamp/{what}/{}-{class}", if is_dir { "dir" } else { "file" }),
+                    format!("{p}: {what} on disk is not the instant expected ({class} ticks {lo}..={hi}); it equals tick {from_clock:?}"),
+                );
+            }
+        };
+        check("created", node.stamps.created, &|t| {
+            let (dw, tw, ten) = instant_words(t);
+            e.cdate == dw && e.ctime == tw && e.ctime_tenth == ten
+        }, &mut v);
+        if !is_dir {
+            check("modified", node.stamps.modified, &|t| {
+                let (dw, tw, _) = instant_words(t);
+                e.mdate == dw && e.mtime == tw
+            }, &mut v);
+            check("accessed", node.stamps.accessed, &|t| instant_words(t).0 == e.adate, &mut v);
+        }
+    }
+    v
+}
